@@ -34,7 +34,9 @@ def extract(R, repo):
                            env=vlib.go_env(), capture_output=True, text=True, timeout=600)
         if p.returncode != 0:
             return None, "extractor does not build: " + p.stderr[-800:]
-    p = subprocess.run([exe, repo], env=vlib.go_env(), capture_output=True, text=True, timeout=300)
+    # -soft-guard: a shape of compositeSubjectCreator.Execute the extractor does not understand leaves `compositeGuard`
+    # unextracted (marker line) instead of failing the whole extraction; run_checks then needs c04_src_composite
+    p = subprocess.run([exe, "-soft-guard", repo], env=vlib.go_env(), capture_output=True, text=True, timeout=300)
     if p.returncode != 0:
         return None, "extractor failed closed: " + p.stderr[-800:]
     return p.stdout, None
@@ -425,6 +427,15 @@ def run_checks(R):
     facts, tie_error, lean_ok = lean_step(R)
     # compositeSubjectCreator.Execute translated from the current source, proved equal to `composite`
     go2lean_c04.step(R)
+    if facts and facts.get("composite_guard") is None:
+        # the composite's condition was not extracted as a fact: the stronger theorem about the translated function
+        # (Props/C04Src: translated compositeSubjectCreator.Execute = model, for all chains) has to stand in
+        if R.lean_src["ok"]:
+            R.coverage["composite_guard_established_by"] = "c04_src_composite"
+        else:
+            R.violation("the condition of compositeSubjectCreator.Execute is neither extracted as a fact (extract/authn "
+                        "does not understand the shape of the loop) nor established by c04_src_composite",
+                        {"kind": "guard-not-established"}, no_input=True)
     exe = vlib.step_harness(R)
     if exe is None:
         R.violation("harness does not build against /repo (API used by the correspondence check changed)",
@@ -438,6 +449,8 @@ def run_checks(R):
     corpus = vlib.load_corpus(PID)
     witnesses = witness_cases()
     small = gen_authn.small_scope_cases(lengths=(1, 2)) + gen_authn.small_scope_cases(lengths=(2,), with_override=True)
+    small += gen_authn.url_template_cases()      # endpoint URLs / headers templated over the credential (see gen_authn)
+    R.assumptions.append(gen_authn.URL_TEMPLATE_ASSUMPTION)
     if not quick:
         small += gen_authn.small_scope_cases(lengths=(3,)) + gen_authn.small_scope_cases(lengths=(3,), with_override=True)
     n_random = 1500 if quick else 30000
